@@ -11,7 +11,7 @@ PID = 'C20'
 PLAN = {
     'quick': [('table', 5, [0, 33, 34, 35, 36]), ('btree', 7, [0, 9, 20]), ('priq', 8, [0, 5]),
               ('bitv', 0, [0]), ('dnf', 3, [0]), ('dnf10', 0, [0])],
-    'thorough': [('table', 6, [0, 33, 34, 35, 36]), ('btree', 9, [0, 9, 20]), ('priq', 10, [0, 5]),
+    'thorough': [('table', 6, [0, 33, 34, 35, 36]), ('btree', 8, [0, 9, 20]), ('priq', 10, [0, 5]),
                  ('bitv', 0, [0]), ('dnf', 3, [0]), ('dnf10', 0, [0])],
 }
 SHARDED = {'table', 'btree', 'priq', 'dnf'}
